@@ -22,12 +22,13 @@ def run(ctx):
     # ---- (1) Y decoder, all sizes -----------------------------------------------------------------
     em = BitPhaseFlipErrorModel()
     R, C = ctx.pick((9, 10), (12, 15))
+    shared_y = PlanarYDecoder()      # ONE decoder object over all sizes (every other error), next to a fresh one per size
     for r in range(2, R + 1):
         for c in range(2, C + 1):
             code = PlanarCode(r, c)
             S = code.stabilizers
             n = code.n_k_d[0]
-            dec = PlanarYDecoder()
+            fresh_y = PlanarYDecoder()
             errs = []
             for q in range(n):
                 e = np.zeros(2 * n, dtype=int)
@@ -38,7 +39,8 @@ def run(ctx):
                 for q in rng.sample(range(n), rng.randint(2, min(n, 6))):
                     e[q] = e[n + q] = 1
                 errs.append(e)
-            for e in errs:
+            for i_e, e in enumerate(errs):
+                dec = shared_y if i_e % 2 == 0 else fresh_y
                 s = letter_syndrome(S, e)
                 key = ('y-sweep', r, c, e.tobytes())
                 try:
@@ -47,7 +49,8 @@ def run(ctx):
                 except Exception as ex:  # noqa
                     ctx.count(key, True, 'y-sweep')
                     ctx.violation('raises', 'PlanarYDecoder raised %s on a Y-only error' % type(ex).__name__,
-                                  {'code': repr(code), 'error': pt.bsf_to_pauli(e)})
+                                  {'code': repr(code), 'error': pt.bsf_to_pauli(e),
+                                   'decoder_object': 'ONE object over all sizes 2x2..' if dec is shared_y else 'fresh for this size'})
                     continue
                 ctx.count(key, r != c, 'y-sweep', {'code': repr(code), 'error_qubits': np.flatnonzero(e[:n]).tolist()}
                           if len(ctx.samples) < 7 else None)
@@ -56,6 +59,7 @@ def run(ctx):
                         not np.array_equal(letter_syndrome(S, rec), s):
                     ctx.violation('syndrome', 'PlanarYDecoder recovery does not reproduce the syndrome of a Y-only error',
                                   {'code': repr(code), 'error': pt.bsf_to_pauli(e),
+                                   'decoder_object': 'ONE object over all sizes 2x2..' if dec is shared_y else 'fresh for this size',
                                    'recovery': None if rec is None else pt.bsf_to_pauli(rec % 2)})
     # ---- (2) symmetry decoders at extreme finite bias ----------------------------------------------
     etas = [1e-300, 1e-12, 1e-6, 1e6, 1e12, 9e15, 1e16, 1e17, 1e100, 1e300]
@@ -65,20 +69,24 @@ def run(ctx):
              (RotatedToricCode(4, 4), lambda eta: RotatedToricSMWPMDecoder(rng.choice([False, True]), eta)),
              (RotatedToricCode(2, 4), lambda eta: RotatedToricSMWPMDecoder(False, eta))]
     for eta in etas:
+        shared = {}      # ONE decoder object per class and eta over all its codes (every other error), next to fresh ones
         for code, mk in codes:
             S = code.stabilizers
             n = code.n_k_d[0]
             for given in (True, False):
-                dec = mk(eta if given else None)
+                fresh = mk(eta if given else None)
                 cem = DepolarizingErrorModel() if given else BiasedDepolarizingErrorModel(eta, 'Y')
-                for _ in range(ctx.pick(10, 60)):
+                for i_e in range(ctx.pick(10, 60)):
+                    dec = shared.setdefault((type(fresh), given), fresh) if i_e % 2 == 0 else fresh
                     e = np.zeros(2 * n, dtype=int)
                     for q in rng.sample(range(n), rng.randint(1, 3)):
                         pl = rng.randint(1, 3)
                         e[q], e[n + q] = pl & 1, pl >> 1
                     s = letter_syndrome(S, e)
                     key = ('smwpm-bias', repr(code), eta, given, e.tobytes())
-                    rep = {'code': repr(code), 'decoder': repr(dec), 'context_error_model': repr(cem), 'error': pt.bsf_to_pauli(e)}
+                    rep = {'code': repr(code), 'decoder': repr(dec), 'context_error_model': repr(cem), 'error': pt.bsf_to_pauli(e),
+                           'decoder_object': 'fresh for this code' if dec is fresh and i_e % 2 else
+                           'ONE object for all codes of this class at this eta (codes in the order 4x5, 4x4, 3x5 / 4x4, 2x4)'}
                     ctx.count(key, True, 'smwpm-extreme-bias', rep if len(ctx.samples) < 8 else None)
                     try:
                         rec = dec.decode(code, s, error_model=cem, error_probability=rng.choice([0.01, 0.1, 0.4]))
